@@ -325,7 +325,7 @@ def vis_edits(toks):
     return edits
 
 
-def cfg_feature_edits(toks, off_features):
+def cfg_feature_edits(toks, off_features, text=None):
     """rule 3: remove `#[cfg(feature = "f")]`-guarded items/fields/variants/arms for features that
     are off in the default build.  The guarded thing ends at the first `,` or `;` at depth 0, or
     at the end of its `{..}` block when that comes first followed by no `,`."""
@@ -370,7 +370,18 @@ def cfg_feature_edits(toks, off_features):
                     j += 1
                 if end is None:
                     raise ExtractError("cfg(feature) guarded element without end")
-                edits.append((toks[i].s, end, ""))
+                start = toks[i].s
+                if text is not None:
+                    # doc comments directly above the attribute belong to the removed element
+                    while True:
+                        ls = text.rfind("\n", 0, start)
+                        prev_ls = text.rfind("\n", 0, ls) + 1 if ls > 0 else 0
+                        prev = text[prev_ls:ls] if ls >= 0 else ""
+                        if text[ls + 1:start].strip() == "" and prev.strip().startswith("///"):
+                            start = prev_ls
+                        else:
+                            break
+                edits.append((start, end, ""))
                 # continue scanning after the removed region
                 while i < len(toks) and toks[i].s < end:
                     i += 1
